@@ -181,21 +181,26 @@ class SerializerBase(object):
         if classname in cls.__custom_dict_to_class_registry:
             converter = cls.__custom_dict_to_class_registry[classname]
             return converter(classname, data)
+        if not isinstance(classname, str):
+            raise errors.SecurityError("refused to deserialize a class name that is not a string")
         if "__" in classname:
             raise errors.SecurityError("refused to deserialize types with double underscores in their name: " + classname)
         # for performance reasons, the constructors below are hardcoded here
         # instead of added on a per-class basis to the dict-to-class registry
         if classname == "Pyro5.core.URI":
             uri = core.URI.__new__(core.URI)
-            uri.__setstate__(data["state"])
+            uri.__setstate__(cls.plain_data(data["state"], (list, tuple), "uri state"))
             return uri
         elif classname == "Pyro5.client.Proxy":
+            state = cls.plain_data(data["state"], (list, tuple), "proxy state")
+            for names in state[1:4]:
+                cls.plain_data(names, (list, tuple, set, frozenset), "proxy state")
             proxy = client.Proxy.__new__(client.Proxy)
-            proxy.__setstate__(data["state"])
+            proxy.__setstate__(state)
             return proxy
         elif classname == "Pyro5.server.Daemon":
             daemon = server.Daemon.__new__(server.Daemon)
-            daemon.__setstate__(data["state"])
+            daemon.__setstate__(cls.plain_data(data["state"], (list, tuple), "daemon state"))
             return daemon
         elif classname.startswith("Pyro5.util."):
             if classname == "Pyro5.util.SerpentSerializer":
@@ -235,11 +240,21 @@ class SerializerBase(object):
         raise errors.SerializeError("unsupported serialized class: " + classname)
 
     @staticmethod
+    def plain_data(value, types, what):
+        """
+        The pieces an object is recreated from must be plain data. Something the deserializer created itself is refused
+        (msgpack converts the innermost dicts first, and a Proxy does remote calls when it is indexed or iterated over).
+        """
+        if not isinstance(value, types):
+            raise errors.SecurityError("refused to deserialize %s of type %s" % (what, type(value).__name__))
+        return value
+
+    @staticmethod
     def make_exception(exceptiontype, data):
-        ex = exceptiontype(*data["args"])
+        ex = exceptiontype(*SerializerBase.plain_data(data["args"], (list, tuple), "exception args"))
         if "attributes" in data:
             # restore custom attributes on the exception object
-            for attr, value in data["attributes"].items():
+            for attr, value in SerializerBase.plain_data(data["attributes"], dict, "exception attributes").items():
                 setattr(ex, attr, value)
         return ex
 
